@@ -423,7 +423,7 @@ class C04(Prop):
     id = "C04"
     props_file = "Props/C04.v"
     # redundant tie (core.gen_tie): these decision functions, translated from the source on every run, equal the hand model for all inputs
-    gen_tie_theorems = ['GenTie_is_result_correct', 'GenTie_is_label_correct', 'GenTie_get_label_threshold', 'GenTie_LabelThreshold_get_label_threshold']
+    gen_tie_theorems = ['GenTie_is_result_correct', 'GenTie_is_label_correct', 'GenTie_get_label_threshold', 'GenTie_LabelThreshold_get_label_threshold', 'GenTie_interpolate_precision_recall_list', 'GenTie_interpolate_precision_recall_list_outside', 'GenTie__calculate_ap', 'GenTie__calculate_ap_outside', 'GenTie_get_precision_recall_list', 'GenTie_Ap__calculate_tp_fp', 'GenTie_Ap__calculate_tp_fp_outside']
     extra_props_files = ["Props/Pipeline.v"]     # the composed frame pipeline (C01 -> C10 -> C03 -> C04; C08 on it)
     design_ref = "DESIGN.md section 4, C04"
     technique = "Rocq proof (induction over rankings, telescoping + Abel summation over Q) about a hand model of Ap/Map; in-Coq correspondence with the real Ap/Map"
